@@ -303,3 +303,94 @@ T('c16i_options_built_once_copy_module', ['C16'],
   (CK, 'import base64\n', 'import base64\nimport copy\n'),
   (CK, _EXPIRY_ATTR, _BUILT_ONCE),
   (CK, _KWARGS, "        template = self._save_cookie_kwargs\n        save_cookie_kwargs = copy.copy(template)\n"))
+
+# ---------------------------------------------------------------- R16.f: the random default key is drawn per construction
+_IMPORT = 'import base64\n'
+_NOW = 'NOW = \'now\'\n'
+_CLSATTR = '    _cookie_type = JSONCookie\n'
+_INIT_TAIL = '                 data_expiry=None):\n'
+_GET_RANDOM = '    def _get_random(self):\n'
+B('c16i_key_default_argument_of_helper', ['C16'], 'R16.f',
+  (CK, _NOW, _NOW + '\n\ndef _pick_secret_key(secret_key=None, random_key=os.urandom(20)):\n    return secret_key or random_key\n'),
+  (CK, _SECRET, '        self.secret_key = _pick_secret_key(secret_key)\n'))
+B('c16i_key_default_argument_of_constructor', ['C16'], 'R16.f',
+  (CK, '                 secret_key=None,\n', '                 secret_key=os.urandom(20),\n'))
+B('c16i_key_class_attribute', ['C16'], 'R16.f',
+  (CK, _CLSATTR, _CLSATTR + '    _default_key = os.urandom(20)\n'),
+  (CK, _SECRET, '        self.secret_key = secret_key or self._default_key\n'))
+B('c16i_key_module_constant', ['C16'], 'R16.f',
+  (CK, _NOW, _NOW + '_KEY = os.urandom(20)\n'),
+  (CK, _SECRET, '        secret_key = secret_key or _KEY\n        self.secret_key = secret_key\n'))
+B('c16i_key_memoised_factory', ['C16'], 'R16.f',
+  (CK, _IMPORT, _IMPORT + 'import functools\n'),
+  (CK, _NOW, _NOW + '\n\n@functools.lru_cache(maxsize=None)\ndef random_key():\n    return os.urandom(20)\n'),
+  (CK, _SECRET, '        self.secret_key = secret_key or random_key()\n'))
+B('c16i_key_memoised_staticmethod', ['C16'], 'R16.f',
+  (CK, _IMPORT, _IMPORT + 'from functools import lru_cache\n'),
+  (CK, _GET_RANDOM, '    @staticmethod\n    @lru_cache()\n    def _get_random():\n'))
+B('c16i_key_lazy_module_global', ['C16'], 'R16.f',
+  (CK, _NOW, _NOW + '_process_key = None\n'),
+  (CK, _SECRET, '        global _process_key\n        if _process_key is None:\n            _process_key = os.urandom(20)\n'
+                '        self.secret_key = secret_key or _process_key\n'))
+B('c16i_key_lazy_class_attribute', ['C16'], 'R16.f',
+  (CK, _CLSATTR, _CLSATTR + '    _shared_key = None\n'),
+  (CK, _SECRET, '        if type(self)._shared_key is None:\n            type(self)._shared_key = os.urandom(20)\n'
+                '        self.secret_key = secret_key or type(self)._shared_key\n'))
+B('c16i_key_default_argument_through_factory', ['C16'], 'R16.f',
+  (CK, _NOW, _NOW + '\n\ndef new_key(size=20):\n    return os.urandom(size)\n\n\ndef pick_key(given, fallback=new_key()):\n    return given or fallback\n'),
+  (CK, _SECRET, '        self.secret_key = pick_key(secret_key)\n'))
+T('c16i_key_public_factory', ['C16'],
+  (CK, _NOW, _NOW + '\n\ndef new_key(size=20):\n    return os.urandom(size)\n'),
+  (CK, _SECRET, '        self.secret_key = secret_key or new_key()\n'))
+T('c16i_key_private_helper_constant_defaults', ['C16'],
+  (CK, _NOW, _NOW + '\n\ndef _pick_secret_key(secret_key=None, size=20):\n    return secret_key or os.urandom(size)\n'),
+  (CK, _SECRET, '        self.secret_key = _pick_secret_key(secret_key)\n'))
+T('c16i_key_lambda_default_called', ['C16'],
+  (CK, _INIT_TAIL, '                 data_expiry=None,\n                 _keygen=lambda: os.urandom(20)):\n'),
+  (CK, _SECRET, '        self.secret_key = secret_key or _keygen()\n'))
+T('c16i_key_module_partial', ['C16'],
+  (CK, _IMPORT, _IMPORT + 'import functools\n'),
+  (CK, _NOW, _NOW + '_new_key = functools.partial(os.urandom, 20)\n'),
+  (CK, _SECRET, '        self.secret_key = secret_key or _new_key()\n'))
+T('c16i_key_module_lambda', ['C16'],
+  (CK, _NOW, _NOW + 'new_key = lambda size=20: os.urandom(size)\n'),
+  (CK, _SECRET, '        self.secret_key = secret_key or new_key()\n'))
+T('c16i_key_imported_name', ['C16'],
+  (CK, _IMPORT, _IMPORT + 'from os import urandom\n'),
+  (CK, _SECRET, '        self.secret_key = secret_key or urandom(20)\n'))
+T('c16i_key_classmethod_factory', ['C16'],
+  (CK, _SECRET, '        self.secret_key = secret_key or type(self).new_key()\n'),
+  (CK, _GET_RANDOM, '    @classmethod\n    def new_key(cls):\n        return os.urandom(20)\n\n' + _GET_RANDOM))
+T('c16i_key_memoised_per_instance', ['C16'],
+  (CK, _IMPORT, _IMPORT + 'import functools\n'),
+  (CK, _GET_RANDOM, '    @functools.lru_cache()\n' + _GET_RANDOM))
+B('c16i_key_public_factory_short', ['C16'], 'R16.d',
+  (CK, _NOW, _NOW + '\n\ndef new_key(size=20):\n    return os.urandom(size)\n'),
+  (CK, _SECRET, '        self.secret_key = secret_key or new_key(8)\n'))
+B('c16i_key_constant_default_argument', ['C16'], 'R16.d',
+  (CK, '                 secret_key=None,\n', "                 secret_key=b'clastic',\n"))
+
+# ---------------------------------------------------------------- the codec / MAC plumbing seen along the MRO (mixin first in the bases)
+_CLS_HEAD = 'class JSONCookie(SecureCookie):\n    serialization_method = json\n'
+_UNSER_HEAD = '    @classmethod\n    def unserialize(cls, string, secret_key):\n'
+T('c16i_codec_mixin_first', ['C16'],
+  (CK, _CLS_HEAD, 'class _Codec(object):\n    serialization_method = json\n'),
+  (CK, _UNSER_HEAD, '\nclass JSONCookie(_Codec, SecureCookie):\n\n' + _UNSER_HEAD))
+T('c16i_serializer_import_alias', ['C16'],
+  (CK, 'import json\n', 'import json as _json\n'),
+  (CK, '    serialization_method = json\n', '    serialization_method = _json\n'))
+B('c16i_codec_mixin_raw_unicode', ['C16'], 'R16.b',
+  (CK, _CLS_HEAD, 'class _Codec(object):\n    serialization_method = json\n'),
+  (CK, _UNSER_HEAD, '\nclass JSONCookie(_Codec, SecureCookie):\n\n' + _UNSER_HEAD),
+  (CK, "        ret = cls.serialization_method.dumps(value)\n", "        ret = cls.serialization_method.dumps(value, ensure_ascii=False)\n"))
+B('c16i_mixin_overrides_hash_method', ['C16'], 'R16.c',
+  (CK, _CLS_HEAD, 'class _Codec(object):\n    serialization_method = json\n    hash_method = staticmethod(lambda *a: None)\n'),
+  (CK, _UNSER_HEAD, '\nclass JSONCookie(_Codec, SecureCookie):\n\n' + _UNSER_HEAD))
+B('c16i_mixin_overrides_serialize', ['C16'], 'R16.c',
+  (CK, _CLS_HEAD, 'class _Codec(object):\n    serialization_method = json\n\n    def serialize(self, expires=None):\n        return b"?".join([b"", b""])\n'),
+  (CK, _UNSER_HEAD, '\nclass JSONCookie(_Codec, SecureCookie):\n\n' + _UNSER_HEAD))
+B('c16i_mixin_serializer_mismatch', ['C16'], 'R16.b',
+  (CK, 'import json\n', 'import json\nimport pickle\n'),
+  (CK, _CLS_HEAD, 'class _Codec(object):\n    serialization_method = json\n'),
+  (CK, _UNSER_HEAD, '\nclass JSONCookie(_Codec, SecureCookie):\n    serialization_method = pickle\n\n' + _UNSER_HEAD),
+  (CK, "        ret = cls.serialization_method.dumps(value)\n", "        ret = json.dumps(value)\n"))
